@@ -648,10 +648,7 @@ theorem infl_sumRaw (w : World) (pp : RPath) (names : List Str) : Infl (sumRaw (
   | cons nm rest ih =>
     unfold sumRaw
     refine infl_bind (infl_getD 0 ?_) fun _ => infl_bind ih fun _ => infl_pure _
-    cases w.openDir (nm :: pp) with
-    | none => exact infl_pure _
-    | some _ =>
-      exact infl_bind (infl_addToCache w _) fun _ => infl_bindInt (infl_getRaw w _) fun _ => infl_pure _
+    exact infl_bind (infl_addToCache w _) fun _ => infl_bindInt (infl_getRaw w _) fun _ => infl_pure _
 
 theorem infl_getEffSwapMax (w : World) (p : RPath) : Infl (getEffSwapMax (α := α) w p) := by
   induction p with
@@ -1021,16 +1018,13 @@ theorem Triple.sumRaw (e : RefEnv α) (pp : RPath) (names : List Str) (need : Li
   | cons nm rest ih =>
     unfold OomdModel.CgStats.sumRaw refSumRaw
     refine Triple.bind (gives := []) ?_ (fun r _ => Triple.bind (gives := []) ih (fun sum _ => Triple.pure e _ _))
+    have h := Triple.getD 0 (Triple.bind ((Triple.addToCache e (nm :: pp)).weaken' (need' := need) (by simp))
+      (fun _ _ => Triple.bindInt (Triple.getRaw e (nm :: pp) ([nm :: pp] ++ need) (by simp))
+        (fun r _ => Triple.pure e _ (Res.ok r))))
+    refine Triple.congr h ?_
     cases ho : e.w.openDir (nm :: pp) with
-    | none =>
-      rw [refRaw_unavailable e _ ho]
-      exact Triple.getD 0 (Triple.pure e need .unavailable)
-    | some inc =>
-      have h := Triple.getD 0 (Triple.bind ((Triple.addToCache e (nm :: pp)).weaken' (need' := need) (by simp))
-        (fun _ _ => Triple.bindInt (Triple.getRaw e (nm :: pp) ([nm :: pp] ++ need) (by simp))
-          (fun r _ => Triple.pure e _ (Res.ok r))))
-      refine Triple.congr h ?_
-      simp only [refOpen, ho, Res.bind_ok', int_map_bind, Res.bind_ok_right]
+    | none => simp [refOpen, ho, refRaw_unavailable e _ ho, Res.bind]
+    | some inc => simp only [refOpen, ho, Res.bind_ok', int_map_bind, Res.bind_ok_right]
 
 theorem Triple.getEffSwapMax (e : RefEnv α) (p : RPath) : ∀ (need : List RPath), p ∈ need →
     Triple e need (getEffSwapMax (α := α) e.w p) ((refEffSwapMax e p).map .int) [] := by
